@@ -366,6 +366,14 @@ def main(run: Run):
     for g in grids(run.thorough):
         for specs in cases_for(g, run.thorough):
             items.append((g, specs))
+    # multi-day schedules: six-hour bars over two and a half days, periods and delays of a day and more (a handful of cases, each a 3600-row run)
+    gd = (0, 360, 3600)
+    h = timedelta(hours=1)
+    for pending in (24 * h, 30 * h, 6 * h):
+        for im in (False, True):
+            items.append((gd, [{"kind": "period", "delta": 12 * h, "pending": pending, "immediate": im, "kwargs": {"d": 1}}]))
+        items.append((gd, [{"kind": "periods", "deltas": [12 * h, 18 * h], "pending": pending, "immediate": False, "kwargs": {"d": 2}}]))
+    items.append((gd, [{"kind": "period", "delta": 24 * h, "pending": timedelta(0), "immediate": False}]))
     items = run.rotate(items)
     for p in pmap(work, [(run.seed, c) for c in chunks(items, 64)]):
         run.merge(p)
